@@ -22,6 +22,8 @@ pub struct Renames {
 pub fn cfg() -> crate::gen::wt::Cfg {
     crate::gen::wt::Cfg {
         shadow_pct: 0,
+        // every case: a rename that confuses a rec binder with the outer name it shadows changes the document
+        rec_shadow_every: 1,
         ..super::c17::cfg()
     }
 }
@@ -107,8 +109,19 @@ fn run_case(c0: &WtCase, seed: u64, idx: u64, st: &mut Stats) -> Vec<Violation> 
     let mut rng = Rng::for_case(seed, "c18pos", idx);
     // probe positions: (module, byte offset, what)
     let mut probes: Vec<(usize, usize, &'static str)> = Vec::new();
+    // names bound by a `rec` somewhere in the module: their occurrences (binder, uses, and whatever outer
+    // declaration or parameter of the same name the binder shadows) are asked first
+    let rec_names: Vec<Vec<&str>> = c
+        .printed
+        .iter()
+        .map(|pm| pm.occs.iter().filter(|o| matches!(o.role, Role::RecBinder(_))).map(|o| &pm.text[o.range.clone()]).collect())
+        .collect();
+    let mut first: Vec<(usize, usize)> = Vec::new();
     for (m, pm) in c.printed.iter().enumerate() {
         for o in &pm.occs {
+            if rec_names[m].contains(&&pm.text[o.range.clone()]) {
+                first.push((m, o.range.start));
+            }
             let kind = match &o.role {
                 Role::Use(Target::Decl(_)) => "use-of-declaration",
                 Role::Use(Target::Param(..)) => "use-of-parameter",
@@ -136,7 +149,15 @@ fn run_case(c0: &WtCase, seed: u64, idx: u64, st: &mut Stats) -> Vec<Violation> 
     }
     rng.shuffle(&mut probes);
     // the qualifier part of qualified uses first (the server answers for the identifier behind the dot there)
-    probes.sort_by_key(|p| if p.2 == "qualifier-of-use" { 0 } else { 1 });
+    probes.sort_by_key(|p| {
+        if p.2 == "qualifier-of-use" {
+            0
+        } else if first.contains(&(p.0, p.1)) {
+            1
+        } else {
+            2
+        }
+    });
     let keep = 40 + probes.iter().filter(|p| p.2 == "qualifier-of-use").count().min(12);
     probes.truncate(keep);
     let mut lsp = match Lsp::start(&dir.path, None) {
